@@ -7,7 +7,7 @@ THEOREMS = ["d8_drdc_table", "ldd_drdc_table", "d8_convention", "ldd_convention"
             "d8_all_complete", "ldd_all_complete",
             "d8_decode_spec", "ldd_decode_spec", "d8_decode_wf", "ldd_decode_wf",
             "nextxy_decode_spec", "nextxy_decode_wf",
-            "pits_exact", "pits_sorted", "mask_excluded", "infer_sound", "gen_pit_indices_eq"]
+            "pits_exact", "pits_sorted", "mask_excluded", "infer_sound", "gen_pit_indices_eq", "gen_d8_from_array_eq", "gen_ldd_from_array_eq", "gen_nextxy_from_array_eq"]
 RULE = ("exhaustive rasters over the legal code set on all shapes with <= 4 cells (quick) / <= 5 (thorough) for D8 "
         "and LDD, exhaustive NEXTXY targets on <= 3 cells, random rasters to 8x8 through pyflwdir.from_array with "
         "masks, explicit and inferred ftype, matching and mismatching dtypes; a case is non-trivial when the raster "
